@@ -10,7 +10,7 @@
                         identifiers, formulae and SMILES-like labels, e.g. CC(=O)O, C#C, Fe(OH)3 ([ex_label_domain]).
       [rxns_of H]       the stored reactions (rule, reactants, products) as a list; multiset equality is [≡ₚ]. *)
 From stdpp Require Import gmap strings sets.
-From SK Require Import lib.Tok model.C15_Model proof.C15_Proof model.C16_Model proof.C16_Defs proof.C16_Chars proof.C16_Str proof.C16_Sg proof.C16_BipA proof.C16_BipB proof.C16_Reach proof.C16_SgMol proof.C16_StrItems proof.C16_StrOrder.
+From SK Require Import lib.Tok model.C15_Model proof.C15_Proof model.C16_Model proof.C16_Defs proof.C16_Chars proof.C16_Str proof.C16_Sg proof.C16_BipA proof.C16_BipB proof.C16_Reach proof.C16_SgMol proof.C16_SgRules proof.C16_StrItems proof.C16_StrOrder.
 Local Open Scope string_scope.
 
 (** every network reachable through the store operations (C15_inv_reachable) satisfies the decidable premise used below *)
@@ -169,3 +169,18 @@ Theorem C16_as_bipartite_defaults : ∀ H : net,
   = hypergraph_to_bipartite (BFlags (Some "S:") (Some "R:") 0 1 true true true true false false) H.
 Proof. reflexivity. Qed.
 Print Assumptions C16_as_bipartite_defaults.
+
+(** ** Species graph: the rules too, when reactions sharing a species pair agree on their rule *)
+(** [rules_agree H]: two reactions that have a common (reactant, product) pair carry the same rule (then every merged rule
+    set is a singleton and the arbitrary pick — any [pick] with [pick {x} = x], as next(iter(set)) — is determined).  Under this
+    premise the whole id ↦ (rule, reactants, products) map is reproduced. *)
+Theorem C16_species_graph_roundtrip_rules :
+  ∀ (pick : gset string → string) (default_rule : string) (include_mol mol_attr : bool) (H : net),
+  (∀ x, pick {[ x ]} = x) → two_sided H → wf_rxns H →
+  (∀ e e' rx rx' u v, edges H !! e = Some rx → edges H !! e' = Some rx' →
+     is_Some (r_lhs rx !! u) → is_Some (r_rhs rx !! v) → is_Some (r_lhs rx' !! u) → is_Some (r_rhs rx' !! v) →
+     r_rule rx = r_rule rx') →
+  (species_graph_to_hypergraph pick default_rule mol_attr (hypergraph_to_species_graph include_mol H)).2 = None ∧
+  edges (species_graph_to_hypergraph pick default_rule mol_attr (hypergraph_to_species_graph include_mol H)).1 = edges H.
+Proof. exact species_graph_roundtrip_rules. Qed.
+Print Assumptions C16_species_graph_roundtrip_rules.
